@@ -717,6 +717,9 @@ func jacPointPool(r *rng, extra int) []jacAffPt {
 	for i := 0; i < extra; i++ {
 		add("random", new(big.Int).SetBytes(r.bytes(32)))
 	}
+	for _, p := range rarePoints(r, 1) {
+		pool = append(pool, jacAffPt{p.x, p.y, "rare"})
+	}
 	return pool
 }
 
